@@ -1,4 +1,4 @@
-SPECIFICATION Spec
+SPECIFICATION ExSpec
 CONSTANTS
   Handles = {1, 2}
   DimSet <- MCDims
